@@ -128,12 +128,23 @@ def step(cls, k=3, all_followups=False, **sel):
                     if len(set(imgs)) != len(imgs):
                         continue   # follow-up relabelling would merge atoms: undefined, outside the property
                 for inplace in (False, True):
-                    x = _inplace(spec, mapping) if inplace else gl.build(spec).relabel_atoms(dict(mapping), copy=True)
+                    src = None
+                    if inplace:
+                        x = _inplace(spec, mapping)
+                    else:
+                        src = gl.build(spec)
+                        src_before = gl.snap(src)
+                        x = src.relabel_atoms(dict(mapping), copy=True)
                     m = gl.model_from_spec(spec)
                     m.relabel(mapping)
                     msg = C09.check_op_on(x, m, op, cname, f"after relabel_atoms({mapping}, copy={not inplace})")
                     if msg:
                         return msg
+                    if src is not None:
+                        # (round 3) "copy=True leaves the source untouched" also holds after the renamed copy has been edited
+                        d = gl.diff(gl.snap(src), src_before)
+                        if d:
+                            return f"source of relabel_atoms({mapping}, copy=True) changed when {op.kind}{op.args} was applied to the copy: {d}"
     return None
 
 
